@@ -34,6 +34,13 @@ func (m *MTProto) sendPacket(request tl.Object, expectedTypes ...reflect.Type) (
 		msgID = utils.GenerateMessageId()
 	)
 
+	// clock can return the same instant twice (coarse timers) or even step back, but ids must increase strictly
+	// in order of writing: answers are found by these ids, and server refuses an id which is not above the last
+	if msgID <= m.lastMsgID {
+		msgID = m.lastMsgID + 4 //nolint:gomnd ids of client are multiples of four
+	}
+	m.lastMsgID = msgID
+
 	// adding types for parser if required
 	if len(expectedTypes) > 0 {
 		m.expectedTypes.Add(int(msgID), expectedTypes)
